@@ -375,6 +375,9 @@ func (x vc[T]) runChange(e *env, cfg caseCfg) (out []finding) {
 	tsFacet := "options=" + optNames(cfg.Opts&(oTimestamp|oAuto), false)
 	txFacet := "options=" + optNames(cfg.Opts&oTxID, false)
 	typeFacet := "options=" + optNames(cfg.Opts&oType, false)
+	if cfg.Opts&oType == 0 {
+		typeFacet += " " + vfacet // the name then derives from the Go type
+	}
 	stage := "constructor"
 	defer func() {
 		if r := recover(); r != nil {
@@ -403,7 +406,7 @@ func (x vc[T]) runChange(e *env, cfg caseCfg) (out []finding) {
 
 	// the message as constructed
 	if msg.Type != wantType {
-		bad("message type", typeFacet+" "+vfacet, "msg.Type = %q, want %q", msg.Type, wantType)
+		bad("message type", typeFacet, "msg.Type = %q, want %q", msg.Type, wantType)
 	}
 	if msg.Key != key {
 		bad("message key", kfacet, "msg.Key = %q, want %q", short(msg.Key), short(key))
@@ -475,8 +478,10 @@ func (x vc[T]) runChange(e *env, cfg caseCfg) (out []finding) {
 			return aerr
 		}
 		if len(stored) == 1 && nEvents == 2 {
-			if got, ok := coll.Get(key); !ok || !equalValues(got, x.old) {
-				bad("entity to delete did not arrive", vfacet, "after the preparing insert Get(%q) = (%+v, %v), want (%+v, true)", short(key), got, ok, x.old)
+			if got, ok := coll.Get(key); !ok {
+				bad("entity to delete did not arrive", "", "after the preparing insert Get(%q) found nothing", short(key))
+			} else if !equalValues(got, x.old) {
+				bad("entity to delete arrived with another value", vfacet, "after the preparing insert Get(%q) = (%+v, %v), want (%+v, true)", short(key), got, ok, x.old)
 			}
 		}
 		return nil
@@ -533,7 +538,7 @@ func (x vc[T]) runChange(e *env, cfg caseCfg) (out []finding) {
 	}
 	topOK := fieldNames("field names", ks, doc, map[string]bool{"type": true, "key": true, "headers": true, "value": hasValue, "old_value": hasOld})
 	if s, ok := jsonString(doc["type"]); !ok || s != wantType {
-		bad("stored document type", typeFacet+" "+vfacet, "\"type\" = %s, want %q", doc["type"], wantType)
+		bad("stored document type", typeFacet, "\"type\" = %s, want %q", doc["type"], wantType)
 	}
 	if s, ok := jsonString(doc["key"]); !ok || s != key {
 		bad("stored document key", kfacet, "\"key\" = %s, want %q", short(string(doc["key"])), short(key))
@@ -571,11 +576,15 @@ func (x vc[T]) runChange(e *env, cfg caseCfg) (out []finding) {
 	all := coll.All()
 	if hasValue {
 		got, ok := coll.Get(key)
-		if !ok || !equalValues(got, x.v) {
+		if !ok {
+			bad("materialized entity missing", "", "Get(%q) found nothing; All() has %d entries", short(key), len(all))
+		} else if !equalValues(got, x.v) {
 			bad("materialized entity differs", vfacet, "Get(%q) = (%+v, %v), want (%+v, true)", short(key), got, ok, x.v)
 		}
-		if v, ok := all[ck]; len(all) != 1 || !ok || !equalValues(v, x.v) {
-			bad("materialized collection differs", vfacet+" "+kfacet, "All() has %d entries, entry under the composite key present=%v value %+v; want exactly that one entry with %+v", len(all), ok, v, x.v)
+		if v, ok := all[ck]; len(all) != 1 || !ok {
+			bad("materialized collection: not exactly one entry under CompositeKey(type, key)", "", "All() has %d entries, entry under the composite key present=%v", len(all), ok)
+		} else if !equalValues(v, x.v) {
+			bad("materialized collection differs", vfacet, "All() has %d entries, entry under the composite key present=%v value %+v; want exactly that one entry with %+v", len(all), ok, v, x.v)
 		}
 	} else {
 		if got, ok := coll.Get(key); ok || len(all) != 0 {
@@ -583,7 +592,7 @@ func (x vc[T]) runChange(e *env, cfg caseCfg) (out []finding) {
 		}
 	}
 	if n := len(decoy.All()); n != 0 {
-		bad("entity routed to a collection of another type", typeFacet, "the collection registered as \"decoy\" holds %d entries", n)
+		bad("entity routed to a collection of another type", "options="+optNames(cfg.Opts&oType, false), "the collection registered as \"decoy\" holds %d entries", n)
 	}
 	if mat.LastOffset() != ev.Offset {
 		bad("LastOffset after the round trip", "", "LastOffset() = %q, want %q", mat.LastOffset(), ev.Offset)
@@ -765,7 +774,10 @@ var (
 func uOpt() state.ChangeOption { return state.WithEntityType("U") }
 func vOpt() state.ChangeOption { return state.WithEntityType("V") }
 
-func newFixture(strict bool) *fixture {
+// newFixture builds the pre-populated materializer from three valid inserts. If that does
+// not work the code under test failed to apply valid messages: reported as a violation of
+// its own, not as a harness fault.
+func newFixture(strict bool) (*fixture, string) {
 	f := &fixture{}
 	var opts []state.MaterializerOption
 	if strict {
@@ -782,14 +794,14 @@ func newFixture(strict bool) *fixture {
 		mustJSON(state.Insert("k", fixV1, vOpt())),
 	} {
 		if err := f.mat.Apply(&eventbus.StoredEvent{Offset: eventbus.Offset(fmt.Sprintf("%020d", i+1)), Type: "state.ChangeMessage", Data: raw}); err != nil {
-			vrt.MachineryFault("fixture: %v", err)
+			return nil, fmt.Sprintf("Apply of valid insert %d (%s) returned %v", i+1, raw, err)
 		}
 	}
 	f.snap = f.dump()
 	if len(f.u.All()) != 2 || len(f.v.All()) != 1 || f.mat.LastOffset() != "00000000000000000003" {
-		vrt.MachineryFault("fixture not built: %s", f.snap)
+		return nil, "after three valid inserts (U k, U a/b, V k): " + f.snap
 	}
-	return f
+	return f, ""
 }
 
 // validMessages are the six documents whose every byte is substituted.
@@ -929,7 +941,10 @@ func execute(e *env, vals []valueCase, fix *[2]*fixture, cfg caseCfg) (out [][2]
 			mi = 1
 		}
 		if fix[mi] == nil {
-			fix[mi] = newFixture(cfg.Strict)
+			var problem string
+			if fix[mi], problem = newFixture(cfg.Strict); fix[mi] == nil {
+				return [][2]string{{fmt.Sprintf("bad input strict=%v: the three valid inserts that prepare the materializer were not applied", cfg.Strict), problem}}
+			}
 		}
 		var rebuild bool
 		fs, rebuild = applyBad(fix[mi], cfg.Data)
